@@ -1183,6 +1183,12 @@ func (vr *voterecords) countWithExpels(
 		wsfs := sorted[i][1].([]base.BallotSignFact)           //nolint:forcetypeassert //...
 		expels := sorted[i][2].([]base.SuffrageExpelOperation) //nolint:forcetypeassert //...
 
+		// NOTE the expels without enough node signs make the voteproof, which
+		// IsValidVoteproofWithSuffrage() does not accept.
+		if _, err := isaac.NewSuffrageWithExpels(suf, threshold, expels); err != nil {
+			continue
+		}
+
 		set, m := base.CountBallotSignFacts(wsfs)
 
 		newthreshold := threshold
